@@ -62,7 +62,7 @@ def main(run):
     run.assumptions = ["the shared metric is touched only through the loss wrappers / explainers",
                        "fresh-metric semantics: a new instance of the same class with default arguments"]
     run.require("ixai/utils/wrappers/river.py:RiverMetricToLossFunction.__call__",
-                "ixai/utils/validators/loss.py:_get_loss_function_from_river_metric")
+                "ixai/utils/validators/loss.py:validate_loss_function")
     rnd = random.Random(run.shard_seed)
     names = sorted(n for n in dir(M) if inspect.isclass(getattr(M, n)) and issubclass(getattr(M, n), Metric))
     sh, nsh = run.shard
